@@ -1,15 +1,20 @@
 import SqlModel.Pipeline
 import SqlModel.KwNorm
 import SqlProofs.SplitValue
+import SqlProofs.Respell.All
 /-!
 # C11 — parsing is insensitive to inter-token whitespace and keyword letter case
 
 Theorems: the statement splitter sees a token only through its *view* — type, `_change_splitlevel` class (computed from
 `' '.join(value.upper().split())` for keywords), the `;` test and the case-insensitive GO test — so two token streams with the same views are split
 into statements of identical extents (`split_view_invariant`); re-spelled keywords have the same view (`kwNorm` facts below, and the driver
-evaluates `tokView` on both spellings of every generated script: stream DOMAIN(view)).  The tree model compares keywords through `kwNorm` only
-(`Node.match`, `Node.normalized` are parametric in it).  Not theorems: invariance of the 25 grouping passes under changing the *number* of
-whitespace tokens — established by the metamorphic oracle on the real code and by S-TREE on both spellings.
+evaluates `tokView` on both spellings of every generated script: stream DOMAIN(view)).  For the grouping passes the re-spelling theorem `respell_group` holds: re-spelling the leaves of any token forest by an *admissible* map
+(keyword leaves keep their `kwNorm`, whitespace leaves may get any contextually equivalent value, everything else is untouched) and then
+grouping gives exactly the re-spelling of the grouped forest — same classes, same shape, same leaf types, same error — for every input, every
+fuel, all 25 passes (`SqlProofs/Respell/*`).  Keyword re-casing and re-spelling the whitespace inside multi-word keywords are admissible
+(`respell_group_case`, `respell_group_kwWs`).  Not a theorem: invariance under changing the *number or type* of whitespace tokens (`a  b` vs
+`a b`, blank vs line break: the lexer emits one token per whitespace character) — established by the metamorphic oracle on the real code and by
+S-TREE on both spellings.
 -/
 namespace Sql.C11
 
@@ -30,5 +35,17 @@ theorem respelled_views_equal :
     tokView defaultSplitCfg ⟨T.Keyword, txt "GO"⟩ = tokView defaultSplitCfg ⟨T.Keyword, txt "go"⟩ ∧
     tokView defaultSplitCfg ⟨T.DDL, txt "CREATE OR REPLACE"⟩ = tokView defaultSplitCfg ⟨T.DDL, txt "create  or\nreplace"⟩ := by
   refine ⟨?_, ?_, ?_⟩ <;> decide +kernel
+
+/-- **grouping commutes with admissible re-spelling** (all 25 passes, every input forest, every fuel; errors are preserved too) -/
+theorem respell_group : type_of% @Sql.respell_group := @Sql.respell_group
+/-- … for the flat statement the splitter hands over -/
+theorem respell_group_statement : type_of% @Sql.respell_groupStatement := @Sql.respell_groupStatement
+/-- changing the letter case of keywords by any map that `str.upper` undoes is admissible -/
+theorem respell_group_keyword_case : type_of% @Sql.respell_group_case := @Sql.respell_group_case
+theorem respell_group_ascii_lower : type_of% @Sql.respell_group_asciiLower := @Sql.respell_group_asciiLower
+/-- re-spelling keyword values / whitespace values by contextually `kwNorm`-equivalent texts is admissible -/
+theorem respell_group_keyword_whitespace : type_of% @Sql.respell_group_kwWs := @Sql.respell_group_kwWs
+/-- two non-empty whitespace runs are interchangeable in any context (`ORDER  BY` = `ORDER\nBY` under `kwNorm`) -/
+theorem whitespace_runs_equivalent : type_of% @Sql.ctxEq_ws := @Sql.ctxEq_ws
 
 end Sql.C11
